@@ -81,6 +81,7 @@ def main():
                 t0 = time.time()
                 rc, out = sh([sys.executable, os.path.join(vlib.VERIF, "tools", "check.py"), pid, "--tier", tier], cwd=vlib.VERIF, env=e2, timeout=3600)
                 lines = [l for l in out.split("\n") if l.startswith("VIOLATION") or l.startswith("KNOWN-FINDING")]
+                lines.sort(key=lambda l: not l.startswith("VIOLATION"))  # a property may print more than two KNOWN-FINDING lines first
                 replay = None
                 for l in lines:
                     if l.startswith("VIOLATION") and "replay=" in l:
